@@ -38,17 +38,17 @@ type AV struct {
 }
 
 var (
-	avU       = AV{}
-	avTrue    = AV{K: avBool, B: true}
-	avFalse   = AV{K: avBool, B: false}
-	avNilV    = AV{K: avNil, B: true}
-	avNonNil  = AV{K: avNil, B: false}
-	avEmptyS  = AV{K: avStr, S: ""}
+	avU      = AV{}
+	avTrue   = AV{K: avBool, B: true}
+	avFalse  = AV{K: avBool, B: false}
+	avNilV   = AV{K: avNil, B: true}
+	avNonNil = AV{K: avNil, B: false}
+	avEmptyS = AV{K: avStr, S: ""}
 )
 
-func avBoolOf(b bool) AV { return AV{K: avBool, B: b} }
+func avBoolOf(b bool) AV     { return AV{K: avBool, B: b} }
 func avStrClass(c string) AV { return AV{K: avStr, S: c} }
-func avIntOf(n int64) AV { return AV{K: avInt, N: n} }
+func avIntOf(n int64) AV     { return AV{K: avInt, N: n} }
 
 func (a AV) String() string {
 	switch a.K {
@@ -121,8 +121,8 @@ type Run struct {
 	M        *Machine
 	Mem      map[string]AV
 	Vals     map[ssa.Value]AV
-	Trace    []string           /* Effects recorded by OnInstr via Emit. */
-	Forks    []string           /* Unknown conditions decided on this path. */
+	Trace    []string /* Effects recorded by OnInstr via Emit. */
+	Forks    []string /* Unknown conditions decided on this path. */
 	Deferred []*ssa.Defer
 	visits   map[int]int
 	End      string /* "return", "panic", "stopped", "loop-bound" */
